@@ -80,10 +80,11 @@ func visitKey(f Node, b map[string]Node) string {
 func runStepper(c *Case) Verdict {
 	al := c.Allow
 	v := Verdict{Class: al.K}
-	if al.K == "div" || al.K == "unspec" {
+	if al.K == "div" {
 		v.Verdict = "abstain"
 		return v
 	}
+	var ref *Obs // the run WITHOUT a stepper: every scripted run must equal it, whatever the definition says
 	model := map[string]bool{}
 	for _, vis := range al.Visits {
 		model[visitKey(vis.F, vis.B)] = true
@@ -165,6 +166,32 @@ func runStepper(c *Case) Verdict {
 			} else {
 				obs.G[g] = FromMal(val)
 			}
+		}
+		if script == nil {
+			o := obs
+			ref = &o
+		} else if ref != nil {
+			diff := ""
+			switch {
+			case ref.K != obs.K:
+				diff = "kind"
+			case !(EqualNode(ref.V, obs.V) && EqualNode(obs.V, ref.V)):
+				diff = "value"
+			case ref.K != "val" && ref.Msg != obs.Msg:
+				diff = "error-text"
+			case !effEqual(ref.Eff, obs.Eff) || !effEqual(obs.Eff, ref.Eff):
+				diff = "effects"
+			}
+			if diff != "" {
+				v.Verdict = "mismatch"
+				v.Key = fmt.Sprintf("stepper:differs-from-plain-run:%s:%s", c.Tag, diff)
+				v.Note = fmt.Sprintf("script %s: %s %s (%s); without a stepper: %s %s (%s)", scriptName, obs.K, Canon(obs.V), obs.Msg,
+					ref.K, Canon(ref.V), ref.Msg)
+				return v
+			}
+		}
+		if al.K == "unspec" {
+			continue
 		}
 		cc := *c
 		alc := *al
